@@ -31,9 +31,10 @@ def subscriberClose : List String := ["drain", "close", "stopdrain"]
 map `UpdateIndex` swapped in last), not key list first and values one by one (F58) -/
 def docRead : List String := ["onestate", "decode"]
 
-/-- `eventlogstore.query`: the entries whose payload is an operation are picked out first, the window is
-taken over them (F48: the listing used to end, silently, at the first entry that is not an operation) -/
-def logQuery : List String := ["operations", "window"]
+/-- `eventlogstore.read`: the bound is looked up among ALL the entries (it may be one that is not an
+operation), and the window collects, from there on, the entries whose payload is an operation (F48: the
+listing used to end, silently, at the first entry that is not one) -/
+def logQuery : List String := ["bound", "operations", "collect"]
 
 /-- `oneonone` `monitorTopic` (`Connect.monitor`): a message read from the pairwise topic is handed on
 only after the test that its sender is the peer the channel was opened for -/
